@@ -343,6 +343,12 @@ func collectPackages(parentDir string, alreadyCollected map[string]*PackageInfo,
 		if collected.FilePath != parentInfo.FilePath {
 			return collected, validation.NewValidationError(fmt.Errorf("namespace '%s' conflicts with '%s'", parentInfo.Namespace, collected.FilePath), parentInfo.FilePath)
 		} else {
+			// The package was first reached through a shorter chain; make sure the chain
+			// that leads here now does not exceed the limit either, so that the result
+			// does not depend on the order in which imports are listed.
+			if err := checkImportDepth(collected, depthRemaining); err != nil {
+				return collected, err
+			}
 			return collected, nil
 		}
 	}
@@ -378,6 +384,21 @@ func collectPackages(parentDir string, alreadyCollected map[string]*PackageInfo,
 	}
 
 	return parentInfo, nil
+}
+
+// Verifies that no import chain starting at an already collected package exceeds depthRemaining
+func checkImportDepth(p *PackageInfo, depthRemaining int) error {
+	if depthRemaining <= 0 {
+		return validation.NewValidationError(errors.New("reached maximum number of recursive imports"), p.FilePath)
+	}
+	for _, imp := range p.Imports {
+		if imp.Package != nil {
+			if err := checkImportDepth(imp.Package, depthRemaining-1); err != nil {
+				return err
+			}
+		}
+	}
+	return nil
 }
 
 // Fetch and cache each package version in pkgInfo.Versions
